@@ -689,7 +689,9 @@ fn render_lexer(variant: usize, ntoks: usize, comments: bool) -> String {
     s.push_str("%%\n");
     if variant == 6 {
         // (comments never combine with this variant: the caller passes `comments = false`)
-        let mut s = String::from("%s TAG\n%%\n");
+        // NEST is only ever a TARGET (no rule is conditioned on it): it must exist in both pipelines
+        let mut s = String::from("%s TAG\n%s NEST\n%%\n");
+        s.push_str("\\[ <+NEST>;\n\\] <-NEST>;\n");
         let line = |t: usize, text: &str| if t < ntoks { text.replace("@", &format!("\"t{}\"", t)) } else { text.replace("@", ";") };
         s.push_str(&line(2, "\\< <TAG>@\n"));
         s.push_str(&line(3, "\\> <INITIAL>@\n"));
@@ -867,7 +869,7 @@ fn render_input(toks: &[usize], variant: usize, comments: bool, rng: &mut Rng) -
         }
         if variant == 6 && rng.chance(1, 3) {
             // enter / leave the TAG state (also when `<` and `>` are not tokens of the grammar)
-            s.push_str(*rng.pick(&["< ", "< ", "> "]));
+            s.push_str(*rng.pick(&["< ", "< ", "> ", "[ ", "[ < ", "] "]));
         }
         if variant == 5 && rng.chance(1, 5) {
             // a to-end-of-line comment (or, should `.` match a newline, a to-end-of-input one)
@@ -1150,6 +1152,18 @@ fn rt_blocks(p: &Pair) -> Result<Vec<Vec<String>>, String> {
                 let (v, errs) = pb.parse_actions(lexer, &refs, if p.st.param { 1000usize } else { 0 });
                 b.push(value_line_t(&v));
                 b.extend(err_lines(&errs));
+                // the twin entry point run-time users call: what is an error, where, and whether there is a
+                // value do not depend on whether actions are run or a tree is mapped
+                let (v2, errs2) = pb.parse_map(lexer, &|_| (), &|_, _| ());
+                if err_lines(&errs2) != err_lines(&errs) || v2.is_some() != v.is_some() {
+                    b.push(format!(
+                        "ENTRY-POINTS-DIFFER parse_actions: value {} errors {:?}; parse_map: value {} errors {:?}",
+                        v.is_some(),
+                        err_lines(&errs),
+                        v2.is_some(),
+                        err_lines(&errs2)
+                    ));
+                }
             }
             "generic" => {
                 #[allow(deprecated)]
